@@ -42,11 +42,13 @@ type swEnd struct {
 }
 
 type swtch struct {
-	mu      sync.Mutex
-	wire    [][]byte // every datagram that crossed, both directions, including injected ones
-	tamper  bool
-	r       *hv.Rand
-	dropped int
+	mu       sync.Mutex
+	wire     [][]byte // every datagram that crossed, both directions, including injected ones
+	tamper   bool
+	r        *hv.Rand
+	dropped  int
+	injected bool
+	ninj     int
 }
 
 func (e *swEnd) WriteMsgUDP(b, _ []byte, _ *net.UDPAddr) (int, int, error) {
@@ -59,6 +61,42 @@ func (e *swEnd) WriteMsgUDP(b, _ []byte, _ *net.UDPAddr) (int, int, error) {
 	e.sw.mu.Lock()
 	e.sw.wire = append(e.sw.wire, p)
 	var extraPeer, extraSelf [][]byte
+	// injection point between ServerAuth and ClientAuth: the pending session's id is in clear in ServerAuth
+	// (bytes 4..8); before the client even sees ServerAuth the adversary sends the SERVER datagrams carrying
+	// that id, sealed with the real SANSE under keys anybody can guess (all-zero, all-ones) or a random one,
+	// from the client's address and from a third one. Control types first (see docs/C03.md).
+	if e.dir == 1 && len(p) >= 8 && p[0] == 0x04 && !e.sw.injected {
+		e.sw.injected = true
+		var sid [4]byte
+		copy(sid[:], p[4:8])
+		third := &net.UDPAddr{IP: net.IPv4(10, 9, 9, 9), Port: 999}
+		var zero, ones, rnd [16]byte
+		for i := range ones {
+			ones[i] = 0xff
+		}
+		copy(rnd[:], e.sw.r.Bytes(16))
+		for _, mt := range []byte{0x80, 0x10} {
+			for _, k := range [][16]byte{zero, ones, rnd} {
+				for _, ctr := range []uint64{1 << 40, 1, 0} {
+					body := []byte{1}
+					if mt == 0x10 {
+						body = []byte("forged")
+					}
+					h := header(mt, sid, ctr)
+					f := append(h, sealDirect(k, h, body)...)
+					from := e.peer.self
+					if ctr == 1 {
+						from = third
+					}
+					select {
+					case e.in <- swPkt{f, from}:
+						e.sw.ninj++
+					default:
+					}
+				}
+			}
+		}
+	}
 	if e.sw.tamper && len(p) > 0 && (p[0] == 0x10 || p[0] == 0x80) {
 		r := e.sw.r
 		if r.Chance(50) { // duplicate
@@ -72,6 +110,14 @@ func (e *swEnd) WriteMsgUDP(b, _ []byte, _ *net.UDPAddr) (int, int, error) {
 		}
 		if r.Chance(40) { // reflection to the sender
 			extraSelf = append(extraSelf, append([]byte(nil), p...))
+		}
+		if r.Chance(40) { // sealed for real, but under the all-zero key: live session id, far-ahead counter
+			var sid [4]byte
+			copy(sid[:], p[4:8])
+			var zero [16]byte
+			mt := hv.Pick(r, []byte{0x80, 0x10})
+			h := header(mt, sid, ctrOf(p)+uint64(1000+r.Intn(1<<20)))
+			extraPeer = append(extraPeer, append(h, sealDirect(zero, h, []byte{1})...))
 		}
 		if r.Chance(20) { // forged close with the live session id and a fresh-looking counter
 			f := append([]byte(nil), p[:16]...)
@@ -357,7 +403,7 @@ func endToEnd(r *hv.Rand) {
 					}
 				}
 			}
-			desc += fmt.Sprintf("; %d datagrams on the wire scanned for %d needles; switch dropped %d", len(wire), len(needles), sw.dropped)
+			desc += fmt.Sprintf("; %d datagrams on the wire scanned for %d needles; %d zero/ones/random-key datagrams injected between ServerAuth and ClientAuth; switch dropped %d", len(wire), len(needles), sw.ninj, sw.dropped)
 		} else {
 			desc += "; handshake did not complete (see driver_info) — nothing judged"
 		}
